@@ -244,7 +244,7 @@ def classify(report: Report, verdicts: dict, cases_by_id: dict, *, family: str) 
 # ----------------------------------------------------------------------------- output
 def finish(report: Report) -> int:
     """Write evidence and replays, print verdict lines, return the exit code."""
-    EVIDENCE.mkdir(exist_ok=True)
+    EVIDENCE.mkdir(parents=True, exist_ok=True)
     known = {f["id"]: f for f in load_known(report.prop)}
     for fid, cnt in sorted(report.known_hits.items()):
         print(f"KNOWN-FINDING: property={report.prop} {known[fid]['what']} "
